@@ -277,6 +277,23 @@ pub fn craft(rng: &mut StdRng, c: &Committee, k: &mut Knowledge, correct: &[usiz
             let msgs = byz.iter().map(|b| (s_timeout(&c.sk[*b], ReplicaTimeout { view: c.view(cur), high_vote: None, high_qc: newest.clone() }), correct.to_vec())).collect();
             Some(Crafted { what: "byz-timeout-helpful", msgs, steer: None })
         }
+        5 | 6 if rng.gen_bool(0.3) => {
+            // a vote for the current view immediately followed by one for the next view, to everybody: the bookkeeping of the
+            // partially collected certificate of the current view must keep the votes of the OTHER validators
+            let newest = k.commit_qcs.values().next_back().cloned();
+            let mut msgs = vec![];
+            if rng.gen_bool(0.7) {
+                for v in [cur, cur + 1] {
+                    msgs.push((s_timeout(sk, ReplicaTimeout { view: c.view(v), high_vote: None, high_qc: newest.clone() }), correct.to_vec()));
+                }
+            } else {
+                let h = k.commits.get(&cur).and_then(|v| v.first()).map(|s| s.msg.proposal).unwrap_or(BlockHeader { number: c.genesis.first_block, payload: payload(rng, "two").hash() });
+                for v in [cur, cur + 1] {
+                    msgs.push((s_commit(sk, ReplicaCommit { view: c.view(v), proposal: h }), correct.to_vec()));
+                }
+            }
+            Some(Crafted { what: "byz-vote-for-current-then-next-view", msgs, steer: None })
+        }
         5 | 6 => {
             let view = rng.gen_range(cur.saturating_sub(1)..=cur + 1);
             let old_qc = if rng.gen_bool(0.6) { k.commit_qcs.values().collect::<Vec<_>>().choose(rng).map(|q| (*q).clone()) } else { None };
@@ -290,6 +307,18 @@ pub fn craft(rng: &mut StdRng, c: &Committee, k: &mut Knowledge, correct: &[usiz
             Some(Crafted { what: "byz-timeout-lie", msgs: vec![(m, some_subset(rng, correct))], steer: None })
         }
         // new-view carrying an old certificate, or one completed early with Byzantine signatures
+        7 if !helpful && cur >= 1 && c.byz[c.leader(cur)] && rng.gen_bool(0.6) => {
+            // the (Byzantine) leader of the CURRENT view announces it again with ANOTHER timeout certificate for the preceding view:
+            // the honest timeout votes plus Byzantine votes that carry the newest commit certificate that can be assembled -
+            // possibly one no correct replica has seen. Replicas that already hold a timeout certificate of that view must still
+            // take over the newer commit certificate inside.
+            let old = cur - 1;
+            let newest = (old.saturating_sub(2)..=old).rev().find_map(|v| assemble_commit_qc(c, k, v)).or_else(|| k.commit_qcs.values().next_back().cloned());
+            let cc = c;
+            let qc = assemble_timeout_qc(c, k, old, |_| ReplicaTimeout { view: cc.view(old), high_vote: None, high_qc: newest.clone() }, false)?;
+            let m = s_new_view(&c.sk[c.leader(cur)], ReplicaNewView { justification: ProposalJustification::Timeout(qc) });
+            Some(Crafted { what: "byz-new-view-current-view-other-timeout-certificate", msgs: vec![(m, correct.to_vec())], steer: None })
+        }
         7 => {
             let mut only_to: Option<usize> = None;
             let just = if helpful || rng.gen_bool(0.5) {
